@@ -371,7 +371,6 @@ func mutationSweep(res *ShardResult, nodes int, hists [][]core.VEvent, deadline 
 	}
 }
 
-
 // twinSeqs visits every sequence of length 1..depth over the twin alphabet (which depends on the twin's
 // first/last index, tracked by a tiny model).
 func twinSeqs(depth int, goOn func() bool, visit func(cur []core.TOp)) {
